@@ -75,9 +75,9 @@ CHECKS = {
        "state, incl. JoinAccepts with any DLSettings/RxDelay/CFList (C04_every_received_frame); channel selection never panics for any random stream; a join request never panics; send panics only "
        "inside prepare_buffer's two deliberate panic!s (application misuse: known finding) and otherwise keeps the invariant, so the device can transmit afterwards. Hangs: see C09 (a usable channel always "
        "exists; progress; the degenerate-stream finding). Front-ends: both are modelled (Model/AsyncDev.v, Model/NbDev.v) and compared with the code on the same histories; "
-       "C04_async_send_never_panics_on_radio_input: in an established session no radio behaviour during async Device::send (any byte strings in RX1 / RX2 / Class C reception, errors, timeouts, "
-       "pending receptions) makes it panic, except prepare_buffer's deliberate panic!s. PARTIAL: for nb_device, join and rxc_listen the absence of front-end panics is exercised (event sequences "
-       "exhaustive to depth 4/5; model mirrors the From<Response> panics and the RX-delay subtraction), not proved. "
+       "C04_async_send_never_panics_on_radio_input / C04_async_join_never_panics / C04_async_listen_never_panics: no radio behaviour during async send, join or rxc_listen (any byte strings in RX1 / RX2 / "
+       "Class C reception, errors, timeouts, pending receptions, a fault at any radio call) makes them panic, except prepare_buffer's deliberate panic!s; C04_nb_event_never_panics: the same for every "
+       "state, event and radio answer of the nb_device state machine, with the MAC invariant kept along every event sequence. "
        "Tied to the code by MAC histories enumerating every value of every field of every handled command (FOpts and port 0) and JoinAccept field classes in all regions with three sends afterwards, "
        "the C08/C09/C11/channel-slot generators, and front-end event sequences exhaustive to depth 4/5 (nb_device) and over {timeout, authentic, garbage, radio error}^2 windows (async_device, Class C), "
        "every output checked for PANIC/HANG under catch_unwind with a random-draw budget that covers every residue.",
